@@ -339,6 +339,7 @@ func (self *TextCommandConverter) ConvertTextLockAndUnLockCommand(textProtocol I
 			}
 			lockCommand.Data = NewLockCommandDataExecuteData(executeCommand, commandStage)
 			lockCommand.Flag |= LOCK_FLAG_CONTAINS_DATA
+			i = len(args)
 		case "PUSH":
 			lockCommand.Data = NewLockCommandDataPushString(args[i+1])
 			lockCommand.Flag |= LOCK_FLAG_CONTAINS_DATA
